@@ -80,6 +80,11 @@ def int_spellings(t, tier):
     ]
     if int_bits(t) >= 16:
         sp.append(('1_000', 1000, 'lit'))
+    if int_bits(t) >= 64:
+        # expressions made of unsuffixed literals only: their type (hence their value) comes from the inner type by
+        # inference - evaluated as i32 they would wrap or fail to compile
+        sp.append(('(1 << 31)', 1 << 31, 'expr'))
+        sp.append(('(2_000_000_000 + 2_000_000_000)', 4_000_000_000, 'expr'))
     if int_signed(t):
         sp += [('-3', -3, 'lit'), (f'-K_{U}', -K, 'expr'), (f'-(K_{U} + 1)', -(K + 1), 'expr')]
     if tier == 'thorough':
@@ -512,7 +517,10 @@ def build(tier='quick', seed=0):
     for t in extra_types:
         U = t.upper()
         for kind in LOWERS + UPPERS:
-            for (text, value, form) in [('10', 10, 'lit'), (f'K_{U} << 2', K << 2, 'expr'), (f'{t}::MAX' if kind in UPPERS else f'{t}::MIN', int_max(t) if kind in UPPERS else int_min(t), 'expr')]:
+            red = [('10', 10, 'lit'), (f'K_{U} << 2', K << 2, 'expr'), (f'{t}::MAX' if kind in UPPERS else f'{t}::MIN', int_max(t) if kind in UPPERS else int_min(t), 'expr')]
+            if int_bits(t) >= 64:
+                red += [('(1 << 31)', 1 << 31, 'expr'), ('(2_000_000_000 + 2_000_000_000)', 4_000_000_000, 'expr')]
+            for (text, value, form) in red:
                 arb = not ((kind == 'greater' and value == int_max(t)) or (kind == 'less' and value == int_min(t)))
                 full.append(decl('int', t, validators=[V(kind, text, value, form)],
                                  derives=['Debug', 'Clone', 'Copy', 'PartialEq', 'TryFrom', 'FromStr', 'Display', 'Into'] + (['Arbitrary'] if arb else []),
